@@ -24,3 +24,5 @@
 (assert (forall ((a Str) (m Str)) (! (=> (is_user a) (not (= a (moduleAddr m)))) :pattern ((is_user a) (moduleAddr m)))))
 (assert (not (is_user polAddr)))
 (assert (forall ((m Str)) (! (not (= polAddr (moduleAddr m))) :pattern ((moduleAddr m)))))
+(define-fun bank_minted ((old (Array Str (Array Str Int))) (new (Array Str (Array Str Int))) (to Str) (c Coins)) Bool
+  (forall ((x Str) (d Str)) (! (= (select (select new x) d) (+ (select (select old x) d) (ite (= x to) (Coins_amt c d) 0))) :pattern ((select (select new x) d)))))
